@@ -14,3 +14,53 @@ for _d, _post in ((("n_node",), "forall(0, len({e}), lambda e: eqr(result[e], ag
              returns="opaque",
              ensures=[_post.replace("{e}", _ENC)],
              raises=[("Exception", "False", "only_if")])
+
+# ---------------------------------------------------------------------------------------------
+# node -> face.  get_face_node_partitions groups the faces by their number of corners (assumed contract, DESIGN B.6);
+# _apply_node_to_face_aggregation_numpy is proved on top of it.
+# ---------------------------------------------------------------------------------------------
+from pyvc.contracts import loop
+
+contract("uxarray.grid.connectivity.get_face_node_partitions", trusted=True, props=["C17"],
+         params={"n_nodes_per_face": "arr(int, n_f)"},
+         sizes=["n_f"],
+         returns="tuple(arr(int, n_part + 1), arr(int, n_f), arr(int, n_part), arr(int, n_part))",
+         ghost_returns={"pinv": "arr(int, n_f)"},
+         ensures=[
+             "n_part >= 0",
+             # change_ind: block boundaries 0 = c[0] <= c[1] <= ... <= c[n_part] = n_f
+             "result[0][0] == 0 and result[0][n_part] == n_f",
+             "forall(0, n_part, lambda p: result[0][p] <= result[0][p + 1])",
+             # sorted_ind is a permutation of the faces (pinv its inverse) ...
+             "forall(0, n_f, lambda t: 0 <= result[1][t] and result[1][t] < n_f and pinv[result[1][t]] == t)",
+             "forall(0, n_f, lambda f: 0 <= pinv[f] and pinv[f] < n_f and result[1][pinv[f]] == f)",
+             # ... and every face of block p has exactly element_sizes[p] corners
+             "forall(0, n_part, 0, n_f, lambda p, t: implies(result[0][p] <= t and t < result[0][p + 1], "
+             "n_nodes_per_face[result[1][t]] == result[2][p]))",
+         ],
+         notes="argsort / unique(return_counts) / cumsum pipeline: assumed here, bounded check in the C17 stand-in")
+
+_F = "uxda.uxgrid.face_node_connectivity.values"
+_NPF = "uxda.uxgrid.n_nodes_per_face.values"
+_AGGF = {1: "agg(lambda t: uxda.values[{F}[f, t]], {N}[f])", 2: "agg(lambda t: uxda.values[k, {F}[f, t]], {N}[f])"}
+for _d in (("n_node",), ("time", "n_node")):
+    _r = len(_d)
+    _lead = "" if _r == 1 else "k, "
+    _q = "forall(0, uxda.uxgrid.n_face, lambda f: {b})" if _r == 1 else "forall(0, shape(uxda.values)[0], 0, uxda.uxgrid.n_face, lambda k, f: {b})"
+    _spec = _AGGF[_r].format(F=_F, N=_NPF)
+    contract(_A + "_apply_node_to_face_aggregation_numpy", props=["C17"], variant="dims=" + ",".join(_d),
+             params={"uxda": f"obj('UxDataArray', dims={_d!r})", "aggregation_func": "obj('AggFn')", "aggregation_func_kwargs": {}},
+             sizes=["n_part"],
+             requires=[
+                 # standard form of the face-node table: npf real corners (in-range node indices) per face, at most the table width
+                 f"forall(0, uxda.uxgrid.n_face, lambda f: 1 <= {_NPF}[f] and {_NPF}[f] <= uxda.uxgrid.n_max_face_nodes)",
+                 f"forall(0, uxda.uxgrid.n_face, 0, uxda.uxgrid.n_max_face_nodes, lambda f, t: implies(t < {_NPF}[f], "
+                 f"0 <= {_F}[f, t] and {_F}[f, t] < shape(uxda.values)[{_r - 1}]))"],
+             returns="opaque",
+             ensures=[
+                 # from the property: for each face and leading index, the reduction over exactly that face's corner nodes
+                 _q.format(b=f"eqr(result[{_lead}f], {_spec})")],
+             loops={0: loop(counter="p", invariants=[
+                 _q.format(b=f"implies(pinv[f] < change_ind[p], eqr(result[{_lead}f], {_spec}))"),
+                 "0 <= p and p <= n_part"])},
+             raises=[("Exception", "False", "only_if")])
